@@ -28,3 +28,13 @@ func init() {
 			{Name: "diff", Run: "^TestDiff$", Checks: [2]int{500, 8000}, Shards: [2]int{6, 16}},
 		}})
 }
+
+func init() {
+	reg(PropCfg{ID: "C06", Pkg: "c06", Level: "exploration",
+		Rule: "source texts lexed by the repository lexer and by an independent reference lexer written from grammar.ebnf (verif/reflex): identical (kind, decoded value) sequences, identical inclusive spans, errors exactly where the grammar has no token, span partition of all non-blank non-comment runes; table = every string of length <= 3 (quick) / <= 4 (thorough) over a 46-symbol lexical alphabet, random = generated lexeme sequences with all separators; non-trivial = >= 2 tokens with a zero-width adjacency, multi-character operator, escape or separated number; distinct by text",
+		Jobs: []Job{
+			{Name: "table", Run: "^TestTableExhaustive$", Shards: [2]int{4, 8}},
+			{Name: "lexemes", Run: "^TestLexemes$", Checks: [2]int{20000, 200000}, Shards: [2]int{4, 16}},
+			{Name: "fuzz", Fuzz: "FuzzLex", FuzzSec: 300},
+		}})
+}
